@@ -155,6 +155,7 @@ def register(reg):
     ))
     register2(reg)
     register3(reg)
+    register_static(reg)
 
 
 # ================================================================================================
@@ -485,3 +486,146 @@ def fin_post_of(ctx):
 
 
 FIN_INV = None
+
+
+# ================================================================================================
+# static outputs and CallbackOutput (C20.1, C20.2)
+# ================================================================================================
+CB_LOG_T = None
+
+
+def register_static(reg):
+    from .base import RETENTION_FIELDS, PREP, notify_log, notified, SHARE
+    from pyvc.sv import TList, TTup, TObj
+
+    reg.field("callback", TObj("callback"))
+    reg.field("last_data", TOpt(Pay))
+    reg.field("$cb_log", TList(TTup(TRef("IOutput"), TimeOpt)))   # ghost: (output, time) of every provider invocation
+
+    def static_inv(ctx, o):
+        d = ctx.get(o, "data")
+        return And(ctx.get(o, "_static").e, d.n >= 0, d.n <= 1, files_ok(ctx, d),
+                   Implies(d.n == 1, And(is_none(d.at(z3.IntVal(0)).items[0]), Not(is_none(ctx.get(o, "_output_info"))))))
+
+    def info_ready(ctx, o):
+        return And(Not(is_none(ctx.get(o, "_output_info"))),
+                   ctx.get(o, "_out_infos_exchanged").e >= ctx.get(o, "_connected_inputs").keys.n)
+
+    # ---- get_data on a static output: the one publication, for every request time, nothing evicted
+    def sg_nodata(ctx):
+        o = ctx.self
+        c0 = ctx.old
+        return Or(Not(info_ready(c0, o)), c0.get(o, "data").n == 0)
+
+    def sg_post(ctx, r):
+        o = ctx.self
+        c0 = ctx.old
+        d0, d1 = c0.get(o, "data"), ctx.get(o, "data")
+        ci0, ci1 = c0.get(o, "_connected_inputs"), ctx.get(o, "_connected_inputs")
+        c = z3.Int(sv.uid("c"))
+        return And(r.e == val_in(ctx, d0.at(z3.IntVal(0)).items[1]), d1.n == d0.n, sv.value_eq(d1.at(z3.IntVal(0)), d0.at(z3.IntVal(0))),
+                   z3.ForAll([c], And(ci1.dom(c) == ci0.dom(c), sv.value_eq(ci1.val(c), ci0.val(c)))),
+                   ctx.get(o, "_total_mem").e == c0.get(o, "_total_mem").e)
+
+    reg.add(Contract(
+        f"{OUT}.get_data", self_cls="Output", props=["C20.1"], params={"time": TimeOpt, "target": TOpt(TRef("IInput"))}, result=Pay,
+        primary=False, name="get_data<static>",
+        requires=lambda ctx: static_inv(ctx, ctx.self), ensures=sg_post, modifies=lambda ctx: [],
+        raises={"FinamNoDataError": sg_nodata}, must_raise={"FinamNoDataError": sg_nodata}, raise_frame_empty=True,
+    ))
+
+    # ---- push_data on a static output: exactly one publication, stored with time None
+    def sp_has_targets(ctx):
+        return ctx.old.get(ctx.self, "_targets").n > 0
+
+    def sp_not_exchanged(ctx):
+        return And(sp_has_targets(ctx), Not(info_ready(ctx.old, ctx.self)))
+
+    def sp_second(ctx):
+        return And(sp_has_targets(ctx), info_ready(ctx.old, ctx.self), ctx.old.get(ctx.self, "data").n > 0)
+
+    def sp_post(ctx, r):
+        o = ctx.self
+        c0 = ctx.old
+        d0, d1 = c0.get(o, "data"), ctx.get(o, "data")
+        tg = c0.get(o, "_targets")
+        info_e = ctx.ex.key_expr(c0.get(o, "_output_info"))
+        new = d1.at(z3.IntVal(0))
+        published = And(d1.n == 1, is_none(new.items[0]), val_in(ctx, new.items[1]) == PREP(ctx.data.e, info_e),
+                        is_none(ctx.get(o, "_time")),
+                        notified(ctx, notify_log(c0), notify_log(ctx), tg, tg.n, sv.NONE))
+        untouched = And(d1.n == d0.n, notify_log(ctx).n == notify_log(c0).n)
+        return If(sp_has_targets(ctx), published, untouched)
+
+    reg.add(Contract(
+        f"{OUT}.push_data", self_cls="Output", props=["C20.1"], params={"data": Pay, "time": TimeOpt},
+        primary=False, name="push_data<static>",
+        requires=lambda ctx: And(static_inv(ctx, ctx.self), ctx.get(ctx.self, "_mem_counter").e >= 0),
+        ensures=sp_post,
+        modifies=lambda ctx: [(None, f) for f in RETENTION_FIELDS] + [(WORLD, "$notify_log"), (WORLD, "$fdata"), (ctx.self, "_time"),
+                                                                    (ctx.self, "_mem_counter")],
+        raises={"FinamNoDataError": sp_not_exchanged, "FinamStaticDataError": sp_second, "FinamDataError": sp_has_targets},
+        must_raise={"FinamNoDataError": sp_not_exchanged, "FinamStaticDataError": sp_second},
+        raise_frame_empty=True,
+    ))
+
+    # ---- CallbackOutput.get_data: the provider is invoked exactly once, for exactly the requested time
+    CB = "finam.sdk.output.CallbackOutput"
+
+    def cb_log(ctx):
+        return ctx.get(WORLD, "$cb_log")
+
+    def cb_called_once(ctx):
+        l0, l1 = cb_log(ctx.old), cb_log(ctx)
+        i = z3.Int(sv.uid("cl"))
+        return And(l1.n == l0.n + 1, l1.at(l0.n).items[0].e == ctx.self.e, sv.value_eq(l1.at(l0.n).items[1], ctx.time),
+                   z3.ForAll([i], Implies(And(0 <= i, i < l0.n), sv.value_eq(l1.at(i), l0.at(i)))))
+
+    def cg_notready(ctx):
+        return Not(info_ready(ctx.old, ctx.self))
+
+    def cg_post(ctx, r):
+        o = ctx.self
+        info_e = ctx.ex.key_expr(ctx.old.get(o, "_output_info"))
+        l0 = cb_log(ctx.old)
+        return And(cb_called_once(ctx), r.e == PREP(CBVAL(l0.n), info_e),
+                   Not(is_none(ctx.get(o, "last_data"))), strip_none(ctx.get(o, "last_data")).e == r.e)
+
+    reg.add(Contract(
+        f"{CB}.get_data", self_cls="CallbackOutput", props=["C20.2"], params={"time": Time, "target": TOpt(TRef("IInput"))}, result=Pay,
+        requires=lambda ctx: z3.BoolVal(True), ensures=cg_post,
+        modifies=lambda ctx: [(None, f) for f in RETENTION_FIELDS + ["_cached_data", "last_data"]] + [(WORLD, "$cb_log"), (WORLD, "$pull_log")],
+        raises={"FinamNoDataError": lambda ctx: z3.BoolVal(True), "FinamDataError": lambda ctx: z3.BoolVal(True),
+                "FinamTimeError": lambda ctx: z3.BoolVal(True)},
+        must_raise={"FinamNoDataError": cg_notready},
+    ))
+
+
+CBVAL = z3.Function("provider_result", sv.IntS, sv.RealS)
+
+
+def install(ex):
+    from pyvc.sv import TOpt as _TOpt
+
+    def call_callback(ex, fn, args, kwargs, path, node):
+        if isinstance(fn, sv.SObj) and fn.okind == "callback":
+            # a provider callback: may pull the component's own inputs (upstream buffers only evict), is logged,
+            # returns data or None
+            from .base import RETENTION_FIELDS, suffix_of
+            owner, t = args[0], args[1]
+            log = path.heap_get(ex, WORLD, "$cb_log")
+            n = log.n
+            old = dict(path.heap)
+            for f in RETENTION_FIELDS + ["_cached_data"]:
+                path.heap_havoc(ex, None, f, "cb")
+                ex.note_write_all(path, f, node)
+            path.heap_havoc(ex, WORLD, "$pull_log", "cb")
+            ex.note_write(path, WORLD, "$pull_log", node)
+            rec = sv.STup([owner, t])
+            path.heap_set(ex, WORLD, "$cb_log", sv.SList(sv.simp(n + 1), lambda i, log=log, n=n, rec=rec: sv.ite(i == n, rec, log.at(i)), True))
+            ex.note_write(path, WORLD, "$cb_log", node)
+            none = z3.Bool(sv.uid("cb.none"))
+            return sv.opt(none, sv.SPay(CBVAL(n)))
+        return None
+
+    ex.hooks.setdefault("call_value", []).append(call_callback)
